@@ -11,8 +11,11 @@ and these laws are checked after every script:
   L1  a binding is visible after it is pushed, in its own frame, and an inner binding of the same name shadows it until the inner element frame is popped;
   L2  after pushContextMarker the caller's local bindings and its passed parameters are invisible, the global ones stay visible; after popContextMarker they are back;
   L3  a passed parameter is found by getParamVariable and is NOT a variable (getVariable falls through to the global of that name, or to "not found");
-  L4  popElementFrame / popContextMarker restore the stack exactly (size and entries) to what it was at the matching push.
-Values are always given (no lazily evaluated variables: that path calls back into the interpreter)."""
+  L4  popElementFrame / popContextMarker restore the stack exactly (size and entries) to what it was at the matching push;
+  L5  a global variable is evaluated on first reference, wherever that happens: its defining expression sees the global bindings only - never a local variable or a
+      parameter of the template that happens to reference it first - the value is kept for later references, and the stack is otherwise as it was.
+For L5 the variable element is a model object whose getValue() looks one name up through the interpreted findXObject of the same stack (what evaluating '$x' does);
+the execution context's pushContextMarker / popContextMarker are the stack's own (StylesheetExecutionContextDefault forwards them)."""
 import itertools
 from ..build import AnalysisBroken
 from ..mast import Unsupported, callee, strip_casts, pp
@@ -30,6 +33,8 @@ class VWorld:
         self.calls = 0
         self.max_calls = 6000
         self._dtors = {}
+        self.stack = None
+        self.F = {}
 
     def tables(self, q):
         return None
@@ -55,6 +60,28 @@ class VWorld:
         cls = c.get('cls') or ''
         if k == 'MCall':
             tgt = m.target_obj(c)
+            if tgt == 'ECTX' and n in ('pushContextMarker', 'popContextMarker') and self.stack is not None:
+                sub = OMachine(self, {}, self.stack)
+                sub.fuel = 6000
+                sub.run_body(self.F['marker' if n == 'pushContextMarker' else 'unmarker'], [], self.stack)
+                return 0
+            if tgt == 'ECTX' and n == 'getRootDocument':
+                return 'DOC'
+            if isinstance(tgt, Obj) and tgt.cls.endswith('ElemVariable'):
+                if n == 'getValue':
+                    # evaluating the defining expression '$x': one variable reference, resolved by the stack as it is now
+                    sub = OMachine(self, {}, self.stack)
+                    sub.fuel = 6000
+                    v = sub.run_body(self.F['find'], [tgt.fields['refers'], 'ECTX', 0, 1, 0], self.stack)
+                    got = v[1] if isinstance(v, tuple) and v and v[0] == 'VAL' else None
+                    tgt.fields['evaluations'] += 1
+                    return ('VAL', 'f(%s)' % got)
+                if n == 'getXPath':
+                    return 'XPATH' if tgt.fields['select'] else 0
+                if n in ('getLocator',):
+                    return 0
+                if n == 'getNameAttribute':
+                    return tgt.fields['name']
             if isinstance(tgt, str) and n == 'equals':
                 return int(tgt == m.ev(c['args'][0]))
             if isinstance(tgt, tuple) and tgt and tgt[0] == 'VAL':
@@ -71,11 +98,19 @@ class VWorld:
                 a = c.get('args', [])
                 if not a:
                     return None
-                return m.ev(a[0])
+                v = m.ev(a[0])
+                return None if isinstance(v, int) and v == 0 else v
             if 'XalanDOMString' in cls:
                 return ''
             if 'EnsurePop' in cls or 'CommitPushParams' in cls or 'PushParamFunctor' in cls:
                 return NotImplemented
+        if k == 'Call' and n == 'find' and len(c['args']) == 3:
+            b, e, x = (m.ev(y) for y in c['args'])
+            if isinstance(b, It) and isinstance(e, It):
+                for i in range(b.i, e.i):
+                    if b.vec.items[i] is x:
+                        return It(b.vec, i)
+                return e
         if k == 'Call' and n == 'for_each' and len(c['args']) == 3:
             b, e, fn = (m.ev(x) for x in c['args'])
             body = None
@@ -97,7 +132,8 @@ class VWorld:
 def run_rule(res, facts, tier):
     r = res.rule('C01-R8', 'the variables stack by interpretation: VariablesStack and its StackEntry constructors run on scripts mirroring global set-up, template calls with passed '
                  'parameters and nested element frames; the scoping laws hold - visibility and shadowing inside a frame, a context marker hides the caller\'s locals and '
-                 'parameters but not the globals, a passed parameter is not a variable until declared, the pops restore the stack exactly', floor=150)
+                 'parameters but not the globals, a passed parameter is not a variable until declared, the pops restore the stack exactly, a global variable evaluated on first '
+                 'reference sees the global bindings only', floor=200)
     w = VWorld(facts)
     K = NS + 'VariablesStack'
 
@@ -110,7 +146,9 @@ def run_rule(res, facts, tier):
         'marker': fn('pushContextMarker', 0), 'unmarker': fn('popContextMarker', 0), 'frame': fn('pushElementFrame', 1), 'unframe': fn('popElementFrame', 0),
         'var': fn('pushVariable', 3, lambda a: 'XObjectPtr' in a['params'][1]['ty']), 'params': fn('pushParams', 1), 'mark': fn('markGlobalStackFrame', 0),
         'find': fn('findXObject', 5),
+        'lazy': fn('pushVariable', 3, lambda a: 'ElemVariable' in a['params'][1]['ty']),
     }
+    w.F = F
     entry_ctor = [a for a in facts.asts('VariablesStack::ParamsVectorEntry::ParamsVectorEntry', must=False) if a.get('body') is not None]
 
     def new_stack():
@@ -119,12 +157,14 @@ def run_rule(res, facts, tier):
 
     def call(st, name, *args):
         w.calls = 0
+        w.stack = st
         m = OMachine(w, {}, st)
         m.fuel = 6000
         return m.run_body(F[name], list(args), st)
 
     def lookup(st, name, as_param):
         w.calls = 0
+        w.stack = st
         m = OMachine(w, {}, st)
         m.fuel = 6000
         # findXObject(name, executionContext, fIsParam, fSearchGlobalSpace, fNameFound&)
@@ -212,4 +252,62 @@ def run_rule(res, facts, tier):
             else:
                 r.violation('variables stack: %s' % what, '[%s] yields %r, XSLT 1.0 11.5 / 11.6 require %r' % (label, got if not isinstance(got, list) else 'a different stack', want if not isinstance(want, list) else 'the stack as it was'),
                             common.file_line(F['find']))
+    # L5: lazily evaluated globals.  The model forwards the execution context's marker calls to the stack: that is what the parsed program must do
+    from ..mast import calls as _calls
+    for nm in ('pushContextMarker', 'popContextMarker'):
+        bodies = [a for a in facts.asts('StylesheetExecutionContextDefault::' + nm, must=False) if a.get('body') is not None]
+        if len(bodies) != 1:
+            raise AnalysisBroken('StylesheetExecutionContextDefault::%s: %d bodies' % (nm, len(bodies)))
+        fw = [c for c in _calls(bodies[0]['body']) if (c.get('n') or '') == nm and 'VariablesStack' in (c.get('fn') or c.get('cls') or '')]
+        if len(fw) == 1:
+            r.ok('StylesheetExecutionContextDefault::%s forwards to the variables stack' % nm)
+        else:
+            r.violation('StylesheetExecutionContextDefault::%s' % nm, 'does not forward to VariablesStack::%s exactly once (%d calls)' % (nm, len(fw)), common.file_line(bodies[0]))
+    for select, local_kind, nested, global_first in itertools.product((0, 1), ('variable', 'parameter', 'both'), (0, 1), (0, 1)):
+        label = 'global h defined by %s in terms of $x; first referenced %swhere a %s x is in scope%s' % (
+            'select' if select else 'content', 'in a nested element frame ' if nested else '', local_kind if local_kind != 'both' else 'variable and a parameter',
+            '; x declared after h' if not global_first else '')
+        checks = []
+        try:
+            st = new_stack()
+            var = Obj(NS + 'ElemVariable', {'name': 'h', 'refers': 'x', 'select': select, 'evaluations': 0})
+            call(st, 'marker')
+            call(st, 'frame', 'ROOT')
+            if global_first:
+                call(st, 'var', 'x', ('VAL', 'GX'), 'ROOT')
+            call(st, 'lazy', 'h', var, 'ROOT')
+            if not global_first:
+                call(st, 'var', 'x', ('VAL', 'GX'), 'ROOT')
+            call(st, 'mark')
+            call(st, 'marker')
+            call(st, 'params', Vec([entry('x', 'PX')] if local_kind in ('parameter', 'both') else []))
+            call(st, 'frame', 'E1')
+            if local_kind == 'parameter':
+                call(st, 'var', 'x', ('VAL', 'PX'), 'E1')      # the declared parameter
+            if local_kind in ('variable', 'both'):
+                call(st, 'var', 'x', ('VAL', 'LX'), 'E1')
+            if nested:
+                call(st, 'frame', 'E2')
+                call(st, 'var', 'y', ('VAL', 'LY'), 'E2')
+            before = snapshot(st)
+            first = lookup(st, 'h', False)
+            expect('L5 value of the global on first reference', first, 'f(GX)')
+            after = snapshot(st)
+            same_but_value = len(before) == len(after) and all(
+                b == a or (isinstance(b, dict) and isinstance(a, dict) and {k: v for k, v in b.items() if k != 'm_value'} == {k: v for k, v in a.items() if k != 'm_value'})
+                for b, a in zip(before, after))
+            expect('L5 the stack after the evaluation is the stack before it, but for the kept value', same_but_value, True)
+            expect('L5 the local x is still what the template sees', lookup(st, 'x', False), 'LX' if local_kind in ('variable', 'both') else 'PX')
+            second = lookup(st, 'h', False)
+            expect('L5 second reference gives the kept value', (second, var.fields['evaluations']), ('f(GX)', 1))
+        except Fault as f:
+            r.violation('variables stack, script [%s]' % label, 'the stack misbehaves: %s' % f, common.file_line(F['find'])); continue
+        except Unsupported as u:
+            raise AnalysisBroken('VariablesStack outside the interpreted subset on [%s]: %s' % (label, u))
+        n_scripts += 1
+        for what, got, want in checks:
+            if got == want:
+                r.ok('%s [%s]' % (what, label))
+            else:
+                r.violation('variables stack: %s' % what.split(' [')[0], '[%s] yields %r, XSLT 1.0 11.4 requires %r' % (label, got, want), common.file_line(F['find']))
     return r
